@@ -292,6 +292,7 @@ def case_defaults(case):
         "chunks": [],
         "cblock": None,
         "pre": [],
+        "stall": None,  # [t, d]: both directions of the data channel deliver nothing from t to t+d (virtual s) after connecting
     }
     c.update(case)
     return c
@@ -415,6 +416,19 @@ async def _run_case(net, case, base):
             ct.out.latency = st.out.latency = case["latency"]["data"]
             segs["data_up"].append(a)
             segs["data_down"].append(b)
+            if case["stall"]:
+                loop = asyncio.get_running_loop()
+                t0, dur = case["stall"]
+
+                def hold():
+                    ct.out.hold = st.out.hold = True
+
+                def release():
+                    ct.out.release()
+                    st.out.release()
+
+                loop.call_later(t0, hold)
+                loop.call_later(t0 + dur, release)
 
     net.on_connect = on_connect
     res = {"stored": None, "received": None, "error": None, "pre": []}
@@ -809,6 +823,18 @@ def gen_session_cases(ctx, scale):
             latency={"data": rng.choice([0, 0.01, 0.3]), "ctrl": rng.choice([0, 0.02, 0.2])},
             passive=next(toggle), chunks=rng.choice([[], [1], [3, 1, 4]]), cblock=rng.choice([None, 1, 5]), _plabel=label)
 
+    # -- 3b. a silent network in the middle of a transfer (both directions of the data channel stall)
+    for _ in range(12 * scale):
+        bs = rng.choice([3, 7, 64])
+        payload = bytes(rng.randrange(256) for _ in range(rng.randint(20, 60)))
+        verb = rng.choice(["STOR", "APPE", "RETR"])
+        old = bytes(rng.randrange(256) for _ in range(rng.randint(0, 30)))
+        off = rng.choice([0, 3, len(old)]) if verb != "RETR" else rng.choice([0, 5])
+        add(verb=verb, payload=payload, offset=off, old=old, block_size=bs, passive=next(toggle),
+            seg_data={"kind": "random", "seed": rng.randrange(10**6), "max": 4}, latency={"data": 0.2, "ctrl": 0},
+            stall=[rng.choice([0.1, 0.5, 1.1]), rng.choice([0.7, 30.0])], chunks=rng.choice([[], [5]]), cblock=rng.choice([None, 3]),
+            _plabel="stalled")
+
     # -- 4. throttles (small limits; virtual time makes them free)
     throttles = [
         {"server_read": 40, "server_write": 40},
@@ -945,7 +971,7 @@ def session_stream(ctx, xcheck, scale, reps=1):
         results.append(res)
     if ctx.tier == "thorough":
         # second driver: the same cases over real loopback TCP (no simulated segmentation / time)
-        plain = [c for c in cases if c.get("backend", "memory") in ("memory", "pathio") and not c.get("throttle") and not c.get("latency")
+        plain = [c for c in cases if c.get("backend", "memory") in ("memory", "pathio") and not c.get("throttle") and not c.get("latency") and not c.get("stall")
                  and c.get("seg_data", {"kind": "whole"})["kind"] == "whole" and not c.get("pre")]
         tcp = rng.sample(plain, min(300, len(plain)))
         for case in tcp:
@@ -983,6 +1009,8 @@ def session_stream(ctx, xcheck, scale, reps=1):
             ctx.count("throttled")
         if c["latency"]["data"] or c["latency"]["ctrl"]:
             ctx.count("latency")
+        if c["stall"]:
+            ctx.count("stalled_mid_transfer")
         if c["verb"] in ("STOR", "APPE"):
             ctx.count("old_" + ("missing" if c["old"] is None else "shorter" if len(c["old"]) < c["offset"] + len(c["payload"]) else "equal" if len(c["old"]) == c["offset"] + len(c["payload"]) else "longer"))
         check_case(ctx, case, res, mo)
@@ -1055,7 +1083,7 @@ def correspondence(ctx, scale=None):
         "class (empty, 1, bs-1, bs, bs+1, multi-block, all 256 values, CR/LF/NUL/IAC runs, reply-like text) x offset (0, inside, at "
         "end, beyond end) x verb (upload_stream, append_stream, download_stream, upload(), download()) x server block size (1,3,4,7,"
         "64,default) x client chunking x backend (MemoryPathIO, PathIO, AsyncPathIO, buffering slow-close) x EPSV/PASV x throttles "
-        "x latency x segmentation (every split of payloads up to 5-6 bytes; byte-by-byte; random) on data and control channels x "
+        "x latency x mid-transfer stalls x segmentation (every split of payloads up to 5-6 bytes; byte-by-byte; random) on data and control channels x "
         "pre-existing content (missing, shorter, equal, longer); (e) REST/TYPE/NOOP sequences before RETR vs offset_after. A case "
         "is non-trivial when its full input tuple is distinct (hash); every session case moves real bytes through the real code."
     )
